@@ -178,14 +178,20 @@ type VCtx struct {
 	instRounds int
 }
 
+type qtrig struct {
+	family string                 // memory family whose reads trigger instantiation
+	solve  func(addr *Term) *Term // value of the bound variable for an address read
+}
+
+// QHyp: an assumed universal fact over one or two integer variables, instantiated by
+// E-matching on address reads.
 type QHyp struct {
-	at     int    // index in hyps timeline
-	family string // memory family whose reads trigger instantiation
-	solve  func(addr *Term) []*Term // candidate values of the bound variable for an address read
-	body   func(j *Term) *Term      // instance (already guarded)
-	done   map[int]bool
-	idx    int
-	cache  map[int]*Term
+	at    int // index in hyps timeline
+	idx   int
+	nvars int
+	trigs [][]qtrig // per variable
+	body  func(js []*Term) *Term
+	cache map[string]*Term
 }
 
 type Obligation struct {
